@@ -3,6 +3,8 @@
 package svc
 
 import (
+	"sync/atomic"
+
 	"github.com/Azbesciak/RealDecisionMaker/lib/utils"
 )
 
@@ -19,14 +21,14 @@ type Script struct {
 	Streams []Stream
 }
 
-var script *Script
+var script atomic.Pointer[Script]
 
-// SetScript installs (or with nil removes) the scripted generator. Not safe for concurrent use: scripted mode
-// is only used by single-goroutine explorations.
-func SetScript(s *Script) { script = s }
+// SetScript installs (or with nil removes) the scripted generator. Scripted mode is only used by single-goroutine
+// explorations; the pointer itself is read atomically so that concurrent (unscripted) runs are race-free.
+func SetScript(s *Script) { script.Store(s) }
 
 func verifSeeded(seed int64) utils.ValueGenerator {
-	s := script
+	s := script.Load()
 	if s == nil {
 		return utils.RandomBasedSeedValueGenerator(seed)
 	}
